@@ -152,10 +152,11 @@ func VerifC05XRatArith(op int, k0 int, d0 int, k1 int, d1 int, n1 int, bits int)
 		return
 	}
 	want := zzC05QOp(op, qx, qy)
-	vrt.Carve("C05-divide-alters-ratio-operand", op == 3 && k0 == 2 && (k1 == 4 || k1 == 2))
+	vrt.Carve("C05-divide-alters-ratio-operand", op == 3 && k0 == 2)
 	wantInt := new(big.Int).Rem(want.n, want.d).Sign() == 0
 	isRat := func(k int) bool { return k == 2 || k == 4 }
 	isBig := func(k int, q zzC05Q) bool { return k == 1 || (k == 3 && !zzC05Fits(q.n)) }
+	vrt.Carve("C05-bignum-with-ratio-goes-float", (isRat(k0) && isBig(k1, qy)) || (isRat(k1) && isBig(k0, qx)))
 	vrt.Carve("C05-ratio-result-integer-valued", wantInt && (isRat(k0) || isRat(k1)))
 	vrt.Carve("C05-noncanonical-bignum-quotient", op == 3 && !isRat(k0) && !isRat(k1) && (isBig(k0, qx) || isBig(k1, qy)) && wantInt && zzC05Fits(new(big.Int).Quo(want.n, want.d)))
 	vrt.Carve("C05-fixnum-min-wraps", op == 3 && k0 == 0 && k1 == 3 && qx.n.Cmp(zzC05Min64) == 0 && qy.n.Cmp(big.NewInt(-1)) == 0)
@@ -178,6 +179,9 @@ func VerifC05XRatArith(op int, k0 int, d0 int, k1 int, d1 int, n1 int, bits int)
 func VerifC05XRatCompare(k0 int, d0 int, k1 int, d1 int, n1 int) {
 	x, qx := zzC05XRatOperand("x", k0, 0, zzC05XDen(d0))
 	y, qy := zzC05XRatOperand("y", k1, int64(n1), zzC05XDen(d1))
+	isRat := func(k int) bool { return k == 2 || k == 4 }
+	isBig := func(k int, q zzC05Q) bool { return k == 1 || (k == 3 && !zzC05Fits(q.n)) }
+	vrt.Carve("C05-bignum-with-ratio-goes-float", (isRat(k0) && isBig(k1, qy)) || (isRat(k1) && isBig(k0, qx)))
 	c := zzC05QCmp(qx, qy)
 	want := []bool{c < 0, c <= 0, c > 0, c >= 0, c == 0, c != 0}
 	got := make([]bool, 6)
@@ -219,6 +223,12 @@ var zzC05XRatUn = []string{"zerop", "plusp", "minusp", "abs", "-", "1+", "1-", "
 func VerifC05XRatUnary(fn int, k int, d int, n int) {
 	x, qx := zzC05XRatOperand("x", k, int64(n), zzC05XDen(d))
 	vrt.Carve("C05-divide-alters-ratio-operand", fn == 9 && k == 4)
+	vrt.Carve("C05-oneplus-alters-ratio-operand", (fn == 5 || fn == 6) && k == 2)
+	vrt.Carve("C05-noncanonical-bignum-numerator", fn == 7 && k == 2 && zzC05Fits(qx.n))
+	vrt.Carve("C05-ratio-result-integer-valued", fn == 9 && k == 3 && qx.n.Cmp(big.NewInt(-1)) == 0)
+	if k == 1 {
+		vrt.Assume(!zzC05Fits(qx.n)) // a bignum operand is a canonical one
+	}
 	if fn == 9 && qx.n.Sign() == 0 {
 		out := zzC05Call("/", x)
 		vrt.Assert(out.class == 1, "division by zero is not a Lisp condition")
